@@ -18,7 +18,7 @@ TABLE_TYPES = ["OTU table", "Pathway table", "Function table",
 
 ID_CLASSES = ['ascii', 'one', 'long', 'punct', 'space', 'slash', 'numeric',
               'natsort', 'latin1', 'cjk', 'astral', 'prefix', 'case',
-              'reserved', 'decimal', 'control', 'mixed']
+              'reserved', 'decimal', 'control', 'normforms', 'mixed']
 # classes safe for the classic TSV format (no tab/newline/#-start/edge blank)
 VALUE_CLASSES = ['count', 'bigcount', 'dyadic', 'frac', 'neg', 'tiny',
                  'manydigits', 'huge', 'subnormal', 'const', 'mixed']
@@ -79,6 +79,23 @@ def gen_ids(r, n, cls, prefix):
         base = 0 if prefix.lower() < 'p' else 1000
         return _uniq(r, n, lambda i: r.choice(pool) if r.random() < .6
                      else str(base + r.randrange(1000)))
+    if cls == 'normforms':
+        # ids that are different strings but equal after Unicode
+        # normalisation / case folding (composed and decomposed accents,
+        # ligatures, the Angstrom and Kelvin signs, sharp s, dotless i,
+        # full-width forms): different ids
+        groups = [['\u00e9', 'e\u0301'], ['\u00c5', '\u212b', 'A\u030a'],
+                  ['\ufb01', 'fi'], ['\u00df', 'ss', '\u1e9e'],
+                  ['K', '\u212a', 'k'], ['\u0131', 'i', '\u0130', 'I'],
+                  ['\uff21', 'A'], ['\u00b5', '\u03bc'], ['\u1e69',
+                                                           's\u0323\u0307',
+                                                           's\u0307\u0323']]
+        g = r.choice(groups)
+        stem = prefix + r.choice(['', 'x', 'otu'])
+        pool = [stem + v for v in g] + [stem + v + '1' for v in g]
+        r.shuffle(pool)
+        return _uniq(r, n, lambda i: pool[i] if i < len(pool)
+                     else stem + str(r.randrange(10 ** 6)))
     if cls == 'control':
         # ASCII ids holding a control character other than tab / newline /
         # carriage return / NUL (legal in JSON once escaped, in HDF5 as is)
